@@ -189,6 +189,11 @@ class State:
         self.park_key = None
         self.stop = None
         self.exiting = set()
+        self.stacks = None      # context-bounded mode (cb.py): suspended threads, tid -> [Frame]
+        self.cb_budget = 0      # preemptive context switches left
+        self.cb_skip = False    # the running thread must perform its pending gated step before the next decision
+        self.cb_switches = 0
+        self.cb_pending = {}    # tid -> (after_tid, fn): threads started only once another one has finished
 
     def fork(self):
         s = State.__new__(State)
@@ -221,6 +226,11 @@ class State:
         s.park_key = None
         s.stop = self.stop
         s.exiting = set(self.exiting)
+        s.stacks = None if self.stacks is None else {t: [f.copy() for f in fs] for t, fs in self.stacks.items()}
+        s.cb_budget = self.cb_budget
+        s.cb_skip = self.cb_skip
+        s.cb_switches = self.cb_switches
+        s.cb_pending = dict(self.cb_pending)
         return s
 
     # ---- objects
@@ -1498,6 +1508,13 @@ class Engine:
         V = self.val
         if self.trace is not None:
             self.trace(st, fr, ins)
+        if st.stacks is not None and op in ('load', 'store', 'atomicrmw', 'cmpxchg') and self.cb_point(ins):
+            if st.cb_skip:
+                st.cb_skip = False
+            else:
+                r = self.cb_decide(st)
+                if r is not None:
+                    return r
         if op == 'load':
             return self.do_load(st, fr, ins)
         if op == 'store':
@@ -1644,6 +1661,13 @@ class Engine:
         for oid in fr.allocas:
             st.live[oid] = False
         if not st.frames:
+            if st.stacks is not None and st.cb_pending:
+                for t, (after, fn) in sorted(st.cb_pending.items()):
+                    if after == st.thread:
+                        st.stacks[t] = [Frame(fn)]
+                        del st.cb_pending[t]
+            if st.stacks:
+                return self.cb_finish(st)
             st.status = 'done'
             st.retval = rv
             return None
@@ -1733,6 +1757,68 @@ class Engine:
             nf.regs[pn] = a
         nf.ret_dest = ret_dest
         st.frames.append(nf)
+
+    # ------------------------------------------------------------------ context-bounded interleaving (cb.py)
+    def cb_point(self, ins):
+        """Scheduling points = the atomic operations that pass the native gate (conc.gated): crate atomics
+        and the harness's HAtomic cells. The native replay can only switch threads there."""
+        k = id(ins)
+        r = self._cb_cache.get(k)
+        if r is None:
+            r = False
+            if ins.op in ('atomicrmw', 'cmpxchg') or ins.extra.get('atomic'):
+                for fr in self.loc(ins).split(' <- '):
+                    if fr.startswith('library/core/src/sync/atomic.rs'):
+                        continue
+                    if fr.startswith('harness/src/rt.rs'):
+                        r = '(peek)' not in fr and '(store_ungated)' not in fr and '(slots_all_empty)' not in fr
+                    else:
+                        r = fr.startswith('src/')
+                    break
+            self._cb_cache[k] = r
+        return r
+
+    def cb_switch(self, st, t):
+        st.stacks[st.thread] = st.frames
+        st.frames = st.stacks.pop(t)
+        st.thread = t
+        st.cb_skip = True
+        st.cb_switches += 1
+
+    def cb_decide(self, st):
+        """The running thread is about to perform a gated atomic step: it goes on, or (budget permitting) it is
+        preempted here in favour of any other unfinished thread. The choice is a symbolic scheduling variable."""
+        if st.cb_budget <= 0 or not st.stacks:
+            return None
+        sw = fresh('sw', 8)
+        out = []
+        for t in sorted(st.stacks):
+            s2 = st.fork()
+            s2.pc.append(sw == t)
+            s2.frames[-1].idx -= 1          # the preempted step is executed when the thread is resumed
+            s2.cb_budget -= 1
+            self.cb_switch(s2, t)
+            out.append(s2)
+        st.pc.append(sw == 0)
+        st.cb_skip = True
+        st.frames[-1].idx -= 1
+        return [st] + out
+
+    def cb_finish(self, st):
+        """The running thread's body returned: any other unfinished thread continues (not a preemption)."""
+        me = st.thread
+        ts = sorted(st.stacks)
+        sw = fresh('sw', 8) if len(ts) > 1 else None
+        out = []
+        for i, t in enumerate(ts):
+            s2 = st if i == len(ts) - 1 else st.fork()
+            if sw is not None:
+                s2.pc.append(sw == t)
+            s2.frames = s2.stacks.pop(t)
+            s2.thread = t
+            s2.cb_skip = True
+            out.append(s2)
+        return out if len(out) > 1 else None
 
     # ------------------------------------------------------------------ memory instructions
     def shared_kind(self, obj):
@@ -2077,6 +2163,7 @@ class Engine:
         return res if len(res) > 1 else None
 
     max_spurious = 1
+    _cb_cache = {}
     stop_on_assert = False
     log_all_atomics = False      # translator validation: log atomics on private (stack/TLS) objects too
     mark_hook = None
